@@ -13,8 +13,11 @@
     wait       `Http1Connection.wait`: bytes are only buffered until the flow is done (`release` = mark_done → next head)
     closed     `done`
 
-  The h11 ChunkedReader is not part of this machine (requests whose framing decision is "chunked" are outside `sizeOf`):
-  see Props/C02.lean for what is and is not covered.
+    chunk…     the four sub-states of the h11 `ChunkedReader`: size line (`maybe_extract_next_line` + the `chunk_header`
+               regex incl. extensions and trailing OWS), chunk data, the CR LF after the data (`_bytes_to_discard`, matched
+               byte by byte here — h11 matches as many bytes as are there, which is the same under the drain loop), the
+               trailer section (`maybe_extract_lines`; an empty one ends the message, anything else is the protocol error of
+               fix 4f0e88849)
 -/
 import MitmVerif.Model.C01
 import MitmVerif.Basic.Seg
@@ -24,12 +27,19 @@ open MitmVerif MitmVerif.C01
 inductive Size where
   | len (n : Nat)
   | untilEof
+  | chunked
+  | skip            -- Http1Client: an interim 1xx response is swallowed, the next head is read
   deriving Repr, DecidableEq
 
 inductive Phase where
   | head
   | cl (remainingPred : Nat) (acc : Bytes) (hd : List Bytes)      -- remaining = remainingPred + 1 ≥ 1
   | untilEof (acc : Bytes) (hd : List Bytes)
+  -- h11 ChunkedReader: `_bytes_in_chunk == 0` (size line next), `_bytes_in_chunk > 0`, `_bytes_to_discard`, `_reading_trailer`
+  | chunkSize (acc : Bytes) (hd : List Bytes)
+  | chunkData (remainingPred : Nat) (acc : Bytes) (hd : List Bytes)
+  | chunkDiscard (e : UInt8) (es : Bytes) (acc : Bytes) (hd : List Bytes)     -- still to be matched: e :: es (a suffix of CR LF)
+  | chunkTrailer (acc : Bytes) (hd : List Bytes)
   | wait
   | closed
   deriving Repr, DecidableEq
@@ -37,7 +47,24 @@ inductive Phase where
 inductive Out where
   | msg (head : List Bytes) (body : Bytes)      -- a complete message: RequestHeaders … RequestEndOfMessage
   | reject (head : List Bytes)                  -- ValueError in read_request_head / expected_http_body_size
+  | protoError (head : List Bytes)              -- h11 ProtocolError / trailers in read_body: CloseConnection + ProtocolError
   deriving Repr, DecidableEq
+
+/-- end offset of the first CR LF (h11 `maybe_extract_next_line`) -/
+def findCrlf : Bytes → Option Nat
+  | [] => none
+  | [_] => none
+  | a :: b :: rest => if a = 13 ∧ b = 10 then some 2 else (findCrlf (b :: rest)).map (· + 1)
+
+/-- h11 `chunk_header` regex on the line without its CR LF:
+    `[0-9A-Fa-f]{1,20}(;.*)?[ \t]*` (`.` does not match LF) → chunk size -/
+def chunkHeader (line : Bytes) : Option Nat :=
+  let digits := line.takeWhile Ref.isHex
+  let ext := line.dropWhile Ref.isHex
+  if digits.isEmpty || digits.length > 20 then none
+  else if ext.head? = some 59 then (if ext.contains 10 then none else some (digits.foldl (fun a c => a * 16 + Ref.hexVal c) 0))
+  else if ext.all isOws then some (digits.foldl (fun a c => a * 16 + Ref.hexVal c) 0)
+  else none
 
 /-- one iteration of the drain loop; `none` = nothing more can be done with what is buffered -/
 def step (sizeOf : List Bytes → Option Size) (p : Phase) (b : Bytes) : Option (List Out × Phase × Bytes) :=
@@ -52,13 +79,40 @@ def step (sizeOf : List Bytes → Option Size) (p : Phase) (b : Bytes) : Option 
       | some (.len 0) => some ([.msg ls []], .wait, rest)
       | some (.len (n + 1)) => some ([], .cl n [] ls, rest)
       | some .untilEof => some ([], .untilEof [] ls, rest)
+      | some .chunked => some ([], .chunkSize [] ls, rest)
+      | some .skip => some ([], .head, rest)
   | .cl m acc hd =>
     if b.isEmpty then none
     else if m + 1 ≤ b.length then some ([.msg hd (acc ++ b.take (m + 1))], .wait, b.drop (m + 1))
     else some ([], .cl (m - b.length) (acc ++ b) hd, [])
   | .untilEof acc hd => if b.isEmpty then none else some ([], .untilEof (acc ++ b) hd, [])
+  | .chunkSize acc hd =>
+    match findCrlf b with
+    | none => none
+    | some idx =>
+      match chunkHeader (b.take (idx - 2)) with
+      | none => some ([.protoError hd], .closed, [])
+      | some 0 => some ([], .chunkTrailer acc hd, b.drop idx)
+      | some (n + 1) => some ([], .chunkData n acc hd, b.drop idx)
+  | .chunkData m acc hd =>
+    if b.isEmpty then none
+    else if m + 1 ≤ b.length then some ([], .chunkDiscard 13 [10] (acc ++ b.take (m + 1)) hd, b.drop (m + 1))
+    else some ([], .chunkData (m - b.length) (acc ++ b) hd, [])
+  | .chunkDiscard e es acc hd =>
+    match b with
+    | [] => none
+    | c :: rest =>
+      if c ≠ e then some ([.protoError hd], .closed, [])
+      else match es with
+        | [] => some ([], .chunkSize acc hd, rest)
+        | e' :: es' => some ([], .chunkDiscard e' es' acc hd, rest)
+  | .chunkTrailer acc hd =>
+    match extractLines b with
+    | .more => none
+    | .blank rest => some ([.msg hd acc], .wait, rest)
+    | .lines _ _ => some ([.protoError hd], .closed, [])     -- trailers (or malformed trailer lines): protocol error
   | .wait => none
-  | .closed => none
+  | .closed => if b.isEmpty then none else some ([], .closed, [])      -- the connection is closed: nothing is read any more
 
 /-- the `while True` loops of read_headers / read_body; every iteration consumes at least one byte -/
 def drainF (sizeOf : List Bytes → Option Size) : Nat → Phase → Bytes → List Out × Phase × Bytes
@@ -121,6 +175,24 @@ def requestSize (lines : List Bytes) : Option Size :=
     match requestBodySize r with
     | some (.len n) => some (.len n)
     | some .untilEof => some .untilEof
-    | _ => none
+    | some .chunked => some .chunked
+    | none => none
+
+/-- the client side (`Http1Client.read_headers` for a request with method `reqMethod`): response head, interim 1xx
+    swallowed, framing decision of `expected_http_body_size(request, response)`.  After the response the real code is idle
+    until the next request is sent (`release`); bytes that arrive in between are the unsolicited data the real code
+    answers by closing the connection — in this machine they stay buffered (`wait`), the causality assumption of C02
+    excludes them. -/
+def responseSize (reqMethod : Bytes) (lines : List Bytes) : Option Size :=
+  match readResponseHead lines with
+  | none => none
+  | some r =>
+    if 100 ≤ r.status ∧ r.status ≤ 199 ∧ r.status ≠ 101 then
+      (match responseBodySize reqMethod r with | some _ => some .skip | none => none)
+    else match responseBodySize reqMethod r with
+      | some (.len n) => some (.len n)
+      | some .untilEof => some .untilEof
+      | some .chunked => some .chunked
+      | none => none
 
 end MitmVerif.C02
